@@ -193,14 +193,21 @@ func Injections(base Tagged) []Injection {
 		// 6b. duplicate parameter
 		for pi, p := range c.Params {
 			for pos := pi + 1; pos <= len(c.Params); pos++ {
-				im := cloneModel(m)
-				dup := p
-				dup.Type, dup.Generic = "bool", ""
-				ps := append([]ref.Param{}, im.Conds[ci].Params[:pos]...)
-				ps = append(ps, dup)
-				ps = append(ps, im.Conds[ci].Params[pos:]...)
-				im.Conds[ci].Params = ps
-				add("duplicate-parameter", fmt.Sprintf("%s.%s@%d", c.Name, p.Name, pos), im, ref.MarkP(ci, pos))
+				// the later declaration of the name with a plain type, with the container types, and with the first one's own type
+				for v, ty := range []ref.Param{{Type: "bool"}, {Type: "list", Generic: "string"}, {Type: "map", Generic: "int"}, {Type: p.Type, Generic: p.Generic}} {
+					im := cloneModel(m)
+					dup := p
+					dup.Type, dup.Generic = ty.Type, ty.Generic
+					ps := append([]ref.Param{}, im.Conds[ci].Params[:pos]...)
+					ps = append(ps, dup)
+					ps = append(ps, im.Conds[ci].Params[pos:]...)
+					im.Conds[ci].Params = ps
+					tag := fmt.Sprintf("%s.%s@%d", c.Name, p.Name, pos)
+					if v > 0 {
+						tag += fmt.Sprintf("/as-%s", ty.Type)
+					}
+					add("duplicate-parameter", tag, im, ref.MarkP(ci, pos))
+				}
 			}
 			// 10. container without / with nested element type
 			for vi, bad := range []ref.Param{
